@@ -124,7 +124,13 @@ def one(run, h, batch, rng, key, shape=None):
         rs2 = list(p["rs"])
         rs2[j] = (rs2[j] + rng.choice([1, Q - 1, rand_nz(rng)])) % Q
         tamper("r:%d" % j, cp_bytes(p["C"], p["T"], p["rbf"], rs2), ctx)
-    tamper("challenge", proof, rng.randbytes(7))
+    # another challenge: refused - unless the commitment is the identity element (message and blinding factor all zero), where
+    # T + c*C does not depend on c and the request verifies under every challenge (theorem C11_change_challenge_rejects has the
+    # hypothesis C <> 1 for exactly this reason)
+    if cdl % Q != 0:
+        tamper("challenge", proof, rng.randbytes(7))
+    else:
+        run.count("challenge tamper skipped: commitment is the identity")
     # a field replaced by a curve point outside the prime-order subgroup (not a group element at all)
     tamper("C_outside_subgroup", cp_bytes(h.call("offsub", 1, rng.randrange(2 ** 31))[0], p["T"], p["rbf"], p["rs"]), ctx)
     tamper("T_outside_subgroup", cp_bytes(p["C"], h.call("offsub", 1, rng.randrange(2 ** 31))[0], p["rbf"], p["rs"]), ctx)
@@ -156,4 +162,5 @@ def one(run, h, batch, rng, key, shape=None):
             continue
         if t0 is None:
             tamper("C_plus_point_of_order_%d" % order, cp_bytes(c_bad, p["T"], p["rbf"], p["rs"]), ctx)
-    tamper("swapped_C_T", cp_bytes(p["T"], p["C"], p["rbf"], p["rs"]), ctx)
+    if p["C"] != p["T"]:
+        tamper("swapped_C_T", cp_bytes(p["T"], p["C"], p["rbf"], p["rs"]), ctx)
